@@ -18,9 +18,9 @@ import (
 
 type guardInfo struct {
 	writesOnly bool
-	lockKey string
-	obj     string
-	what    string
+	lockKey    string
+	obj        string
+	what       string
 }
 
 // lockKeyOf returns the ghost key and object index of the mutex denoted by lv.
